@@ -64,7 +64,13 @@ fn reach_info(r: &PortableRegistry, id: u32) -> (bool, bool, BTreeSet<&'static s
 }
 
 /// Oracle's unfolding size (number of resolve calls a straightforward example needs).
-fn unfolding(r: &PortableRegistry, id: u32, stack: &mut Vec<u32>, memo: &mut BTreeMap<u32, u64>) -> u64 {
+pub fn unfolding(r: &PortableRegistry, id: u32, stack: &mut Vec<u32>, memo: &mut BTreeMap<u32, u64>) -> u64 {
+    unfolding_with(r, id, stack, memo, 0)
+}
+
+/// `array_min`: the least number of times an array's element counts (the Rust example resolves the
+/// element of an empty array once; the SCALE example does not).
+pub fn unfolding_with(r: &PortableRegistry, id: u32, stack: &mut Vec<u32>, memo: &mut BTreeMap<u32, u64>, array_min: u64) -> u64 {
     const CAP: u64 = 50_000_000;
     if stack.contains(&id) {
         return 1;
@@ -75,15 +81,15 @@ fn unfolding(r: &PortableRegistry, id: u32, stack: &mut Vec<u32>, memo: &mut BTr
     let Some(t) = r.resolve(id) else { return 1 };
     stack.push(id);
     let mut sum = |ids: Vec<u32>, stack: &mut Vec<u32>, memo: &mut BTreeMap<u32, u64>| -> u64 {
-        ids.into_iter().fold(0u64, |a, i| a.saturating_add(unfolding(r, i, stack, memo))).min(CAP)
+        ids.into_iter().fold(0u64, |a, i| a.saturating_add(unfolding_with(r, i, stack, memo, array_min))).min(CAP)
     };
     let v = 1 + match &t.type_def {
         TypeDef::Composite(c) => sum(c.fields.iter().map(|f| f.ty.id).collect(), stack, memo),
         TypeDef::Variant(v) => v.variants.iter().map(|v| sum(v.fields.iter().map(|f| f.ty.id).collect(), stack, memo)).max().unwrap_or(0),
-        TypeDef::Sequence(s) => 2 * unfolding(r, s.type_param.id, stack, memo),
-        TypeDef::Array(a) => (a.len as u64).saturating_mul(unfolding(r, a.type_param.id, stack, memo)),
+        TypeDef::Sequence(s) => 2 * unfolding_with(r, s.type_param.id, stack, memo, array_min),
+        TypeDef::Array(a) => (a.len as u64).max(array_min).saturating_mul(unfolding_with(r, a.type_param.id, stack, memo, array_min)),
         TypeDef::Tuple(tu) => sum(tu.fields.iter().map(|f| f.id).collect(), stack, memo),
-        TypeDef::Compact(c) => unfolding(r, c.type_param.id, stack, memo),
+        TypeDef::Compact(c) => unfolding_with(r, c.type_param.id, stack, memo, array_min),
         _ => 0,
     };
     stack.pop();
@@ -232,6 +238,15 @@ pub fn run_registry(ctx: &mut Ctx, r: &PortableRegistry, label: &str, seeds: u64
 }
 
 pub fn run(ctx: &mut Ctx) {
+    // hand-written recursive types that can terminate, used several times from one root
+    for (i, prog) in recursive_gallery().into_iter().enumerate() {
+        if !ctx.mine(i as u64) {
+            continue;
+        }
+        let r = sim::simulate(&prog).registry;
+        run_registry(ctx, &r, &format!("c12 gallery {i}"), ctx.tier.pick(48, 512), false);
+        ctx.count("gallery_registries", 1);
+    }
     let n = ctx.tier.pick(700u64, 20_000u64);
     for case in 0..n {
         if !ctx.mine(case) {
